@@ -357,6 +357,8 @@ type Association struct {
 	awakeWriteLoopCh     chan struct{}
 	closeWriteLoopCh     chan struct{}
 	handshakeCompletedCh chan error
+	// set once the result has been handed to the connect call (guarded by lock)
+	handshakeResultSent bool
 
 	closeWriteLoopOnce sync.Once
 
@@ -4469,9 +4471,18 @@ func (a *Association) SetMaxMessageSize(maxMsgSize uint32) {
 // side of the association closes before that can happen. It returns whether it was able
 // to send on the channel or not.
 func (a *Association) completeHandshake(handshakeErr error) bool {
+	if a.handshakeResultSent {
+		// The connect call has already returned (for instance with a T1 retry
+		// failure) and nobody will ever receive again: a late COOKIE-ACK or
+		// COOKIE-ECHO must not block the caller, which holds a.lock.
+		return false
+	}
+
 	select {
 	// Note: This is a future place where the user could be notified (COMMUNICATION UP)
 	case a.handshakeCompletedCh <- handshakeErr:
+		a.handshakeResultSent = true
+
 		return true
 	case <-a.closeWriteLoopCh: // check the read/write sides for closure
 	case <-a.readLoopCloseCh:
